@@ -27,15 +27,16 @@
              cleared whatever the reason; yield_back = check_cancel                               -> [cloop] PW0 | PT1
      PT1     JoinHandle::join: packet.take()   (Some -> Ok)                                       -> PT2
      PT2     panic.take()                      (Some p -> Err p, None -> Err Cancel)
-     PEn     [coroutine, cdis] cancel.enable_cancel()                                             -> PCk
+     PEn     [coroutine, cdis] cancel.enable_cancel()      (dtor run by Drop for Scope: skip PCk)  -> PCk | PRes
      PCk     cancel.check_cancel(): cancelled, not disabled, not unwinding -> raise Cancel        -> PRes
-     PRes    if !panicking { res.unwrap_or_else(resume_unwind) }: the child's panic is re-raised  -> PDrop | PRet
+     PRes    if !unwinding { res.unwrap_or_else(resume_unwind) }: the child's panic is re-raised  -> PDrop | PRet
      PRet    ScopedJoinHandle::join: self.packet.take().unwrap()   (None = the unwrap panic: no transition)
    Raising (a panic of the body, a Cancel at a cancellable point, a re-raised child panic) sets the
    per-task unwinding state and transfers control to Drop for Scope of the innermost frame (PDrop with
    `unw` set) or, with no frame left, to the end of the task.  With cfg ctrans = false (mutant: dtor run
    before the chain is re-linked) a raise inside a dtor loses the rest of the chain.
-   `thread::panicking()` is modelled as this per-task flag (DESIGN C13: O2 names the difference).
+   Since commit 6bc550e (F14) the scoped join is TOLD whether it runs during unwinding (`drop_all(true)` from
+   Drop for Scope) instead of asking the per-thread `thread::panicking()`: that is this per-task flag.
 
    Task end (coroutine wrapper / run_coroutine panic path):
      PF1     result published: packet.store (inner and scoped packet) | set_panic_data | nothing (Cancel)
@@ -152,29 +153,40 @@ Variable cf : cfg.
 
 Definition wpc (s : st) a p := set_pcm s (upd (pcm s) a p).
 
-(* a fresh task n *)
+(* a fresh task n (one record literal: every field of n that the invariants speak about is initialised) *)
 Definition new_task (s : st) (n : nat) (k : kind) (par : option nat) (d : nat) (h : bool) : st :=
-  let s := set_pcm s (upd (pcm s) n PBody) in
-  let s := set_kindm s (upd (kindm s) n k) in
-  let s := set_depthm s (upd (depthm s) n 0) in
-  let s := set_frm s (upd (frm s) n (fun _ => [])) in
-  let s := set_unwm s (upd (unwm s) n UNone) in
-  let s := set_cbitm s (upd (cbitm s) n false) in
-  let s := set_dism s (upd (dism s) n 0) in
-  let s := set_jstm s (upd (jstm s) n true) in
-  let s := set_jwakem s (upd (jwakem s) n None) in
-  let s := set_ipktm s (upd (ipktm s) n false) in
-  let s := set_pktm s (upd (pktm s) n None) in
-  let s := set_panm s (upd (panm s) n None) in
-  let s := set_joinedm s (upd (joinedm s) n false) in
-  let s := set_handlem s (upd (handlem s) n h) in
-  let s := set_parentm s (upd (parentm s) n par) in
-  let s := set_cdepthm s (upd (cdepthm s) n d) in
-  let s := set_cleftm s (upd (cleftm s) n false) in
-  let s := set_outm s (upd (outm s) n ORun) in
-  let s := set_gotm s (upd (gotm s) n 0) in
-  let s := set_tkm s (upd (tkm s) n false) in
-  set_nexta s (S n).
+  {| pcm := upd (pcm s) n PBody;
+     kindm := upd (kindm s) n k;
+     depthm := upd (depthm s) n 0;
+     frm := upd (frm s) n (fun _ => []);
+     unwm := upd (unwm s) n UNone;
+     cbitm := upd (cbitm s) n false;
+     dism := upd (dism s) n 0;
+     jcm := jcm s;
+     jbm := jbm s;
+     jexpm := jexpm s;
+     jresm := jresm s;
+     awm := awm s;
+     jstm := upd (jstm s) n true;
+     jwakem := upd (jwakem s) n None;
+     ipktm := upd (ipktm s) n false;
+     pktm := upd (pktm s) n None;
+     panm := upd (panm s) n None;
+     joinedm := upd (joinedm s) n false;
+     handlem := upd (handlem s) n h;
+     parentm := upd (parentm s) n par;
+     cdepthm := upd (cdepthm s) n d;
+     cleftm := upd (cleftm s) n false;
+     cvalm := cvalm s;
+     outm := upd (outm s) n ORun;
+     gotm := upd (gotm s) n 0;
+     tkm := upd (tkm s) n false;
+     tokm := tokm s;
+     parkedm := parkedm s;
+     reasonm := reasonm s;
+     bownerm := bownerm s;
+     nexta := S n;
+     nextb := nextb s |}.
 
 (* start unwinding in task a; indtor: raised inside a dtor of drop_all *)
 Definition raise (s : st) (a : nat) (u : unwst) (indtor : bool) : st :=
@@ -284,7 +296,9 @@ Definition step (s : st) (ac : action) : option st :=
                let s' := set_jresm s' (upd (jresm s') a r) in
                let s' := set_tkm s' (upd (tkm s') c true) in
                Some (wpc s' a (after_take s a))
-      | PEn => Some (wpc (set_dism s (upd (dism s) a (dism s a - 1))) a PCk)
+      | PEn => (* `if !unwinding { check_cancel() }`: a dtor run by Drop for Scope is told that the owner unwinds *)
+               Some (wpc (set_dism s (upd (dism s) a (dism s a - 1))) a
+                         (if negb (jexpm s a) && unwinding (unwm s a) then PRes else PCk))
       | PCk => if cancel_due s a && negb (unwinding (unwm s a))
                then Some (raise s a UCancel (negb (jexpm s a)))
                else Some (wpc s a PRes)
